@@ -74,3 +74,22 @@ void h_scalar_crc32c_check_value(void) {
   __CPROVER_assert(scalar_crc32c(0, msg, 9) == 0xE3069283u, "scalar kernel gives the CRC-32C check value");
   CQV_CANARY("returns");
 }
+
+/* LZ77 match copy, bounded: every offset 1..32, every len 0..48, arbitrary buffer contents.
+ * 32 bytes of history before dst, 16 guard bytes after dst+48: any byte outside dst[0..len) must keep its value.
+ *   dst[k] == dst[k - offset] in the post-state for every k < len  (k < offset: history byte, which
+ *   must be unchanged; k >= offset: a byte this very copy produced)  and nothing before dst changes. */
+void h_scalar_match_copy_bounded(void) {
+  size_t off = nondet_size_t(), len = nondet_size_t();
+  __CPROVER_assume(off >= 1 && off <= 32 && len <= 48);
+  uint8_t buf[32 + 48 + 16];   /* 32 history bytes, up to 48 copied, 16 guard bytes; contents arbitrary */
+  size_t m = nondet_size_t(), k = nondet_size_t();
+  __CPROVER_assume((m < 32 || m >= 32 + len) && m < sizeof buf && k < len);
+  uint8_t old_m = buf[m];
+  scalar_match_copy(buf + 32, buf + 32 - off, len, off);
+  __CPROVER_assert(buf[m] == old_m, "no byte outside dst[0..len) changes (history before, guard after)");
+  __CPROVER_assert(buf[32 + k] == buf[32 + k - off], "dst[k] == dst[k - offset] (history or produced byte)");
+  if (off < 8 && len > 8) CQV_CANARY("overlapping path");
+  if (off >= 8 && len > 16) CQV_CANARY("8-byte path");
+  CQV_CANARY("returns");
+}
